@@ -16,7 +16,7 @@ from vv.core import Result, exc_violation, innermost_is_harness
 from vv.ref import paths as ref
 
 ID = 'C17'
-CASES = {'quick': 600, 'thorough': 20000}
+CASES = {'quick': 1500, 'thorough': 50000}
 RULE = ('(1) Exhaustive slice: every dict tree of depth <=2 over {a,b} (25 '
         'trees; thorough: also the 729 trees over {a,b,c}), every start node, '
         'every path of length <=4 (thorough slice: <=3) over {a,b,c,..}: Store '
